@@ -138,9 +138,44 @@ class EngineBase:
             raise EngineError(f"class {cls} has no declared field {fname!r} (add it to klass(...))")
         dcls, t = fd
         arrs = self.heap_arrays(st, dcls, fname, t)
-        v = V(t, [z3.Select(a, ref) for a in arrs])
+        v = V(t, [self._select(st, a, ref) for a in arrs])
         st = self.assume_wf(st, v)
         return st, v
+
+    @staticmethod
+    def _distinct_pairs(st: State):
+        """Reference pairs the path condition states to be different (syntactically: `a is not b` facts)."""
+        out = set()
+        todo = list(st.pc)
+        while todo:
+            c = todo.pop()
+            if z3.is_and(c):
+                todo.extend(c.children())
+            elif z3.is_not(c) and z3.is_eq(c.arg(0)):
+                a, b = c.arg(0).children()
+                out.add((a.get_id(), b.get_id()))
+                out.add((b.get_id(), a.get_id()))
+            elif z3.is_distinct(c) and c.num_args() == 2:
+                a, b = c.children()
+                out.add((a.get_id(), b.get_id()))
+                out.add((b.get_id(), a.get_id()))
+        return out
+
+    def _select(self, st: State, a, ref):
+        """Select(a, ref), reading through the stores at references the path condition states to differ from `ref`
+        (an equivalence under the path condition; it keeps quantified hypotheses over the unchanged object matchable)."""
+        pairs = None
+        while z3.is_store(a):
+            w = a.arg(1)
+            if w.eq(ref):
+                return a.arg(2)
+            if pairs is None:
+                pairs = self._distinct_pairs(st)
+            if (w.get_id(), ref.get_id()) in pairs:
+                a = a.arg(0)
+            else:
+                break
+        return z3.Select(a, ref)
 
     def field_write(self, st: State, ref, cls, fname, val: V) -> State:
         fd = self.ct.field(cls, fname)
